@@ -3,6 +3,7 @@ package main
 import (
 	"fmt"
 	"golang.org/x/tools/go/ssa"
+	"regexp"
 	"strings"
 )
 
@@ -132,6 +133,11 @@ func runC20(c *Ctx) {
 						}
 					}
 				}
+				// a value computed before the loop (the rounded level named once) is opaque inside the
+				// body summary: name the rounding it was computed with
+				inFn := e.InFn
+				base := subst
+				subst = func(x string) string { return base(nameRoundings(x, inFn)) }
 				for _, bp := range body {
 					for _, cd := range bp.Conds {
 						str := subst(cd.V.String())
@@ -302,4 +308,33 @@ func runC20(c *Ctx) {
 		}
 		c.check(len(bad) == 0 && nDrain > 0, "released-are-queued", fnKey(rel), p.FnPos(rel), "the whole argument is appended to the waiting queue and the queue is drained unless pending", "released players are not queued for another table", uniq(bad, 3)...)
 	}
+}
+
+var loopvalRe = regexp.MustCompile(`loopval:[A-Za-z0-9_$]+\.(t[0-9]+)`)
+
+// nameRoundings rewrites "loopval:<fn>.<tN>" to "math.Floor(<tN>)" (or Ceil/Round/Trunc) when the
+// SSA value tN of fn is the result of that rounding, looking through integer/float conversions.
+func nameRoundings(x string, fn *ssa.Function) string {
+	return loopvalRe.ReplaceAllStringFunc(x, func(m string) string {
+		name := loopvalRe.FindStringSubmatch(m)[1]
+		for _, b := range fn.Blocks {
+			for _, in := range b.Instrs {
+				v, ok := in.(ssa.Value)
+				if !ok || v.Name() != name {
+					continue
+				}
+				for i := 0; i < 3; i++ {
+					if cv, ok := v.(*ssa.Convert); ok {
+						v = cv.X
+					}
+				}
+				if call, ok := v.(*ssa.Call); ok {
+					if n := extCalleeName(call.Common()); strings.HasPrefix(n, "math.") {
+						return n + "(" + name + ")"
+					}
+				}
+			}
+		}
+		return m
+	})
 }
